@@ -33,6 +33,7 @@ func runC03(p *eng.Prog, r *eng.Report, tier string) {
 	c03AdvertisedIsAccepted(c, "C03.11")
 	c03SelectionPerRequest(c, "C03.12")
 	c03NamesCompared(c, "C03.13")
+	c03ExchangeState(c, "C03.14")
 	// the SASL feature value is shared by every session that uses it: what one
 	// session's Parse saw (the mechanisms its server offered) must not be kept
 	// in, or alias, state that another session's Parse overwrites
@@ -466,4 +467,81 @@ func c03NamesCompared(c *cx, id string) {
 		}
 	}
 	c.r.Floor(id, "SASL functions and closures scanned", n, 5)
+}
+
+// c03ExchangeState (C03.14 / C03.15): what the receiver's exchange loop carries
+// from one element to the next is the selected mechanism (cleared per <auth/>,
+// C03.12), the mechanism's state machine, the last response and the loop
+// condition - nothing else: every other variable the loop body assigns is
+// declared inside the loop, so that the mechanism attribute, the payload or
+// the decoded bytes of an earlier element cannot leak into the next
+// (encoding/xml leaves absent attributes of a reused target alone; an empty
+// "=" response decoded into a reused buffer repeats the previous bytes).
+// And an <abort/> ends the exchange: from its arm the loop head is unreachable.
+func c03ExchangeState(c *cx, id string) {
+	f := c.fn(id, "", "negotiateServer")
+	if f == nil {
+		return
+	}
+	g := f.Graph()
+	var loop *ast.ForStmt
+	f.WalkBody(func(nd ast.Node) bool {
+		if fs, ok := nd.(*ast.ForStmt); ok && loop == nil {
+			loop = fs
+		}
+		return true
+	})
+	if loop == nil {
+		c.r.Unresolved(id, "exchange loop of negotiateServer")
+		return
+	}
+	carried := map[string]bool{}
+	for _, w := range f.Writes() {
+		if !nodeContains(loop.Body, w.Stmt) {
+			continue
+		}
+		v := rootLocal(f, w.LHS)
+		if v == nil || !eng.IsLocal(v) {
+			continue
+		}
+		if v.Pos() >= loop.Pos() && v.Pos() < loop.End() {
+			continue // declared inside the loop (or its header)
+		}
+		carried[eng.TypeStr(v.Type())] = true
+		okT := false
+		switch eng.TypeStr(v.Type()) {
+		case "mellium.im/sasl.Mechanism", "*mellium.im/sasl.Negotiator", "error", "bool":
+			okT = true
+		case "[]byte":
+			// the response of the previous step: assigned whole from Step, never
+			// used as a decoding buffer
+			okT = w.RHS == nil || !strings.Contains(f.Norm(w.RHS, nil), "make(")
+			if as, ok := w.Stmt.(*ast.AssignStmt); ok && len(as.Rhs) == 1 {
+				if cl, ok := ast.Unparen(as.Rhs[0]).(*ast.CallExpr); ok {
+					okT = strings.HasSuffix(f.CalleeID(cl), "Negotiator.Step")
+				}
+			}
+		}
+		c.r.Check(id, f, "variable of type "+eng.TypeStr(v.Type())+" carried across elements of the exchange", "W: the loop body assigns variables declared outside the loop only for the selected mechanism, the state machine, the step's response and errors", w.Stmt.Pos(), okT, "state of an earlier <auth/> / <response/> (its attributes, payload or decoded bytes) survives into the next element")
+	}
+	c.r.Floor(id, "kinds of state carried by the exchange loop", len(carried), 2)
+	// abort terminates
+	_, head, _, okp := g.LoopPoints(loop)
+	na := 0
+	if okp {
+		for _, ce := range g.CondEdges() {
+			isAbort := false
+			for _, a := range ce.Atoms {
+				if !strings.HasPrefix(a.S, "!") && strings.Contains(a.S, "Local:\"abort\"") {
+					isAbort = true
+				}
+			}
+			if !isAbort {
+				continue
+			}
+			na++
+			c.r.Check("C03.15", f, "abort ends the exchange", "O: from the arm of <abort/> the next iteration of the exchange loop is unreachable (the exchange is over; a later <response/> must not complete it)", f.Pos(), !g.Reachable(g.EdgeTarget(ce.E), head, nil, nil), "after <abort/> the loop goes on with the selected mechanism and its state machine still in place: responses complete an exchange that was aborted")
+		}
+	}
+	c.r.Floor("C03.15", "abort arms in negotiateServer", na, 1)
 }
